@@ -29,7 +29,7 @@ ASSUMPTIONS = ['supplied matrices are rotations (orthogonal, det +1) up to round
 def plan(tier):
     q = tier == 'quick'
     return [('trsurf', 300 if q else 6000, {}), ('trcl', 120 if q else 2500, {}), ('implicit', 80 if q else 1500, {}),
-            ('fill', 80 if q else 1500, {}), ('trmodel', 600 if q else 15000, {}), ('trnorm', 500 if q else 12000, {}),
+            ('fill', 320 if q else 2500, {}), ('trmodel', 600 if q else 15000, {}), ('trnorm', 500 if q else 12000, {}),
             ('pottransform', 120 if q else 2500, {})]
 
 
@@ -263,11 +263,12 @@ def run_case(stream, seed, ctx, params):
         d.cells = [c1] + rest
         d.mats = {1: [('13027', '1.0')], 2: [('26056', '1.0')]}
         return run_deck(ctx, stream, d, [], rng, npts=npts, extra_sig={'variant': variant, 'rot': cls})
-    if rng.random() < 0.3:
+    if rng.random() < 0.4:
         # lattice cells carrying a FILL transformation or a TRCL: the transformation is composed with the translation
-        # of every element (compose_transform)
+        # of every element (compose_transform); improper matrices in a good share of the decks
+        classes = ['mirror'] if rng.random() < 0.4 else ['perm', 'pyth', 'generic', 'mirror']
         d = U.build_universe_deck(rng, depth=2, macro_p=0.0, tr_p=0.0, fill_tr_p=0.5, trcl_p=0.4, lattice_p=0.7,
-                                  lat_tr_p=0.6, lat_trcl_p=0.5, rot_classes=['perm', 'pyth', 'generic', 'mirror'])
+                                  lat_tr_p=0.6, lat_trcl_p=0.5, rot_classes=classes)
         return run_deck(ctx, stream, d, [], rng, npts=npts)
     d = U.build_universe_deck(rng, depth=rng.randint(1, 2), macro_p=0.3, tr_p=0.3, fill_tr_p=0.9, trcl_p=0.5,
                               rot_classes=['perm', 'pyth', 'generic', 'mirror'])
